@@ -56,7 +56,7 @@ impl Decoder for ServerCodec {
         }
         match self.state {
             CodecState::Header => {
-                if src.remaining() < 60 || src.remaining() < 59 + address::try_decode_at(src, 59)? {
+                if src.remaining() < 61 || src.remaining() < 59 + address::try_decode_at(src, 59)? + trojan::CR_LF.len() {
                     return Ok(None);
                 }
                 if src[56] != b'\r' {
